@@ -1,6 +1,7 @@
 import LassoProofs.Lemmas.SerdeT
 import LassoProofs.C06
 import LassoModel.Extracted
+import LassoProofs.Lemmas.Config
 /-
   C15 — deserialising arbitrary documents is safe: a consistent object or an error.
 
@@ -129,5 +130,12 @@ theorem deserialisers_follow_model :
       [.readMap, .presizeExact, .presizeExact, .arenaUnlimited, .loopBegin, .counterMax, .store, .expectStored,
        .mapInsert, .stringsInsert, .loopEnd, .finalCheck, .reject] := by
   decide
+
+/-- The code this file's theorems are about is the same under every feature configuration: the regenerated
+census of conditional compilation contains import blocks, whole serde impls, optional-dependency impls and
+module declarations only, and no gate inside any function body (`Lemmas/Config.lean`). -/
+theorem same_code_under_every_feature_configuration :
+    (Extracted.cfgGates.all fun g => g.kind != .other) = true ∧ Extracted.bodyGates.isEmpty = true :=
+  Lasso.one_code_base_for_all_configurations
 
 end Lasso.C15
